@@ -41,6 +41,7 @@ Section Orc.
       else if str_eqb name $"strip_quotes" then Some (L (map (fun s => A (strip_quotes s)) strs))
       else if str_eqb name $"is_assignment" then Some (L (map (fun s => sx_of_bool (is_assignment s)) strs))
       else if str_eqb name $"strip_fd_prefix" then Some (L (map (fun s => A (strip_fd_prefix s)) strs))
+      else if str_eqb name $"sets_execution_var" then Some (L (map (fun s => sx_of_bool (sets_execution_var s)) strs))
       else if str_eqb name $"plain_raw" then Some (L (map (fun s => sx_of_bool (plain_raw s)) strs))
       else if str_eqb name $"scan_raw" then Some (L (map (fun s => sx_of_raw (scan_raw s)) strs))
       else None
